@@ -2,7 +2,7 @@
 C14 - probed system description and derived machine model match the machine.
 Property theorems; long proofs live in RigModel/Lemmas/C14.lean.
 -/
-import RigModel.Lemmas.C14g
+import RigModel.Lemmas.C14h
 set_option linter.unusedSimpArgs false
 set_option linter.unusedVariables false
 
@@ -182,13 +182,46 @@ example : ∃ rd : Rd, ChainIn rd 4 [⟨100, 1, 2, 3, [65, 66, 67, 68]⟩, ⟨20
                     else blockBytes ⟨200, 0, 0, 9, [69, 70, 71, 72]⟩ 0, ?_, by decide⟩
   simp [ChainIn, chainNext]
 
-/- **Status block** - full statement (NOT proved, validated by correspondence and the `core_ok` oracle):
-     theorem status_block (s : Status) (swTop : Nat) (name16 pad : List Nat) (h : all fields within their
-       widths, cpu_state / rt_code valid codes, strip0 name16 = s.appName ASCII, |name16| = |pad| = 16) :
-       decodeStatus (statusBytes s swTop name16 pad) = .ok s
-   What is proved is the layout half: every field of the vcpu struct (table regenerated from
-   sark.struct) is unpacked from its documented position of the 128-byte block.  Missing: the
-   renaming / enum conversion / version split that follows (straight-line code over this list). -/
+/-- **Status block (full).** Decoding the 128-byte vcpu block that the machine specification lays out
+for a status record `s` (registers r0-r7, psr, sp, lr, rt_code, phys_cpu, cpu_state, app_id, the mailbox
+fields, sw_count / sw_file / sw_line, time, the NUL-padded 16-byte name, iobuf, sw_ver = patch | minor << 8
+| major << 16 | swTop << 24, 16 padding bytes, user0-3) returns exactly `s`: every field under its
+`ProcessorStatus` name (iobuf -> iobuf_address, psr -> program_state_register, ...), registers and user
+variables collected in order, the name stripped of NULs, cpu_state / rt_code accepted as enumeration
+members, the version split into (major, minor, patch); the top byte of sw_ver and the padding are ignored.
+For all field values over their full widths. -/
+theorem status_block (s : Status) (swTop : Nat) (name16 pad : List Nat) (hwf : s.WF)
+    (hn : name16.length = 16) (hp : pad.length = 16) (hname : strip0 name16 = s.appName)
+    (hascii : ∀ b ∈ s.appName, b < 128) :
+    decodeStatus (statusBytes s swTop name16 pad) = .ok s :=
+  status_block_lem s swTop name16 pad hwf hn hp hname hascii
+
+/-- `get_processor_status` end to end: the block is read from `sv.vcpu_base + 128 p` -/
+theorem processor_status_exact (rd : Rd) (vbase p : Nat) (s : Status) (swTop : Nat) (name16 pad : List Nat)
+    (hvb : vbase < 4294967296)
+    (h1 : rd (SV_BASE + SV_VCPU_BASE_OFF) SV_VCPU_BASE_SIZE = le32 vbase)
+    (h2 : rd (vbase + VCPU_SIZE * p) VCPU_SIZE = statusBytes s swTop name16 pad)
+    (hwf : s.WF) (hn : name16.length = 16) (hp : pad.length = 16) (hname : strip0 name16 = s.appName)
+    (hascii : ∀ b ∈ s.appName, b < 128) :
+    processorStatus rd p = .ok s :=
+  processorStatus_spec rd vbase p s swTop name16 pad hvb h1 h2 hwf hn hp hname hascii
+
+/-- non-vacuity: a status record with every numeric field at its maximum and the name "ab" -/
+def exStatus : Status :=
+  { registers := List.replicate 8 4294967295, psr := 4294967295, sp := 4294967295, lr := 4294967295, rtCode := 20,
+    physCpu := 255, cpuState := 7, mboxApMsg := 4294967295, mboxMpMsg := 4294967295, mboxApCmd := 255,
+    mboxMpCmd := 255, swCount := 65535, swFile := 4294967295, swLine := 4294967295, time := 4294967295,
+    appName := [97, 98], iobuf := 4294967295, appId := 255, version := (255, 255, 255),
+    userVars := List.replicate 4 4294967295 }
+
+example : exStatus.WF ∧ strip0 (97 :: 98 :: List.replicate 14 0) = exStatus.appName ∧
+    (∀ b ∈ exStatus.appName, b < 128) ∧
+    (statusBytes exStatus 255 (97 :: 98 :: List.replicate 14 0) (List.replicate 16 255)).length = 128 := by
+  refine ⟨?_, by decide, by decide, by rfl⟩
+  unfold Status.WF
+  refine ⟨by decide, by decide, by decide, by decide, by decide, by decide, by decide, by decide, by decide,
+    by decide, by decide, by decide, by decide, by decide, by decide, by decide, by decide, by decide, by decide⟩
+
 /-- **Status block, layout half.** Unpacking the 128-byte vcpu block that the machine specification
 lays out yields, for every field of the (regenerated) vcpu struct table, the little-endian value of
 exactly that field's bytes. -/
